@@ -47,7 +47,7 @@ RULE = ('api strata: (host column from a 43-entry dtype grid: bool, 8 int, 3 flo
         'without NaT, object) x (one element from a 57-element grid incl. NaN None NaT 2**53+1 2**63 2**64 long strings tuples NumPy scalars date/datetime/timedelta) '
         'or x (another column of the grid), through 11 Series/Index element operations, 10 Series array operations, 11 Frame element operations and 14 Frame array '
         'operations, the Frame ones under EVERY block layout (zoo.layouts_for); iterable constructors on all pairs and a lattice of triples of a 37-element grid. '
-        'quick tier: a seeded sample of each space plus one fixed witness per known finding; thorough tier: the complete product for the first operation of each family, the other operations on the 31-dtype core grid, the Frame strata on a 20-dtype x 18-element grid under every layout. '
+        'quick tier: a seeded sample of each space plus one fixed witness per known finding; thorough tier: the complete product for the first operation of each family, the other operations and the Frame strata on a 20-dtype grid (x 16 elements for the Frame element operations) under every layout. '
         'kernel strata: util.resolve_dtype on all 47x47 ordered dtype pairs against the regenerated Gallina function and the typed model, np.result_type against the '
         'oracle (562 pairs), dtype_from_element, dtype_to_fill_value, dtype_kind_to_na, random dtype lists through resolve_dtype_iter/concat_resolved, random element '
         'lists through prepare_iter_for_array. An operation that raises stores nothing (counted, trivial). A case is non-trivial when two different dtypes really meet; '
@@ -257,14 +257,14 @@ FILLS = [True, False, 0, 1, -1, 255, 256, 2**31, 2**53, 2**53 + 1, 2**63 - 1, 2*
          1.5, 0.1, float('nan'), np.nan, float('inf'), 2.0**60, 1 + 2j, complex('nan'),
          'a', 'abcdefgh', '', b'a', b'abcdefgh', None,
          np.datetime64('NaT'), np.datetime64('2020-01-01'), np.datetime64('2100', 'Y'), np.datetime64('2020-03', 'M'), np.datetime64('2020-01-02', 'W'),
-         np.datetime64(1, 'ns'), np.timedelta64(5, 'D'), np.timedelta64(5, 'Y'), np.timedelta64(7, 'ns'), np.timedelta64('NaT'),
+         np.datetime64(1, 'ns'), np.timedelta64(5, 'D'), np.timedelta64(5, 'Y'), np.timedelta64(5, 'M'), np.timedelta64(7, 'ns'), np.timedelta64('NaT'),
          (1, 'a'), np.int8(3), np.int16(-300), np.uint8(200), np.uint64(2**64 - 1), np.int64(2**53 + 1), np.float32(1.5), np.float16(1.5),
          np.float64(0.1), np.complex64(1 + 2j), np.str_('abcdef'), np.bytes_(b'xyz'), np.bool_(False),
          datetime.date(2020, 1, 1), datetime.datetime(2020, 1, 1, 12, 30), datetime.timedelta(days=2)]
 
 
 # a smaller grid for the Frame strata (they are multiplied by every block layout)
-HOSTS_CORE = [k for k in HOSTS if k.split('/')[0] not in ('M8[h]', 'M8[ms]', 'M8[us]', 'm8[M]', 'm8[W]', 'm8[s]', 'm8[us]')
+HOSTS_CORE = [k for k in HOSTS if k.split('/')[0] not in ('M8[h]', 'M8[ms]', 'M8[us]', 'm8[W]', 'm8[s]', 'm8[us]')
               and k not in ('M8[Y]/full', 'M8[s]/full', 'm8[D]/full')]
 FILLS_CORE = [True, 0, -1, 256, 2**53 + 1, 2**63 - 1, 2**63, 2**64, 1.5, 0.1, float('nan'), float('inf'), 1 + 2j, 'a', 'abcdefgh', b'abcdefgh', None,
               np.datetime64('NaT'), np.datetime64('2020-01-01'), np.datetime64('2020-03', 'M'), np.datetime64('2020-01-02', 'W'), np.datetime64(1, 'ns'),
@@ -274,9 +274,9 @@ FILLS_CORE = [True, 0, -1, 256, 2**53 + 1, 2**63 - 1, 2**63, 2**64, 1.5, 0.1, fl
 
 # the Frame strata of the thorough tier (complete product x every layout) use this grid; the quick tier samples the core grid
 HOSTS_FRAME = ['bool', 'int8', 'int64', 'uint8', 'uint64', 'float16', 'float64', 'complex128', '<U1', '<U4', 'S4', 'M8[Y]', 'M8[W]', 'M8[D]', 'M8[ns]',
-               'M8[ns]/full', 'm8[Y]', 'm8[D]', 'm8[ns]/full', 'object']
-FILLS_FRAME = [True, 0, 2**53 + 1, 2**63, 2**64, 1.5, float('nan'), 1 + 2j, 'abcdefgh', b'abcdefgh', None, np.datetime64('NaT'),
-               np.datetime64('2020-01-02', 'W'), np.datetime64(1, 'ns'), np.timedelta64(5, 'D'), (1, 'a'), np.float32(1.5), np.uint64(2**64 - 1)]
+               'M8[ns]/full', 'm8[Y]', 'm8[M]', 'm8[D]', 'm8[ns]/full', 'object']
+FILLS_FRAME = [True, 0, 2**53 + 1, 2**64, 1.5, float('nan'), 1 + 2j, 'abcdefgh', b'abcdefgh', None, np.datetime64('NaT'),
+               np.datetime64('2020-01-02', 'W'), np.datetime64(1, 'ns'), np.timedelta64(5, 'D'), (1, 'a'), np.float32(1.5)]
 
 
 def kind_of_elem(x):
@@ -618,11 +618,18 @@ def op_idx_fillna(a, fv):
     return [Col(p_fill(a.dtype, fv, True), _fillna_cells(a, fv, lambda i: na[i]), r.values)]
 
 
+def _indexgo_years_tag(a, xs):
+    '''finding C07-indexgo-timedelta-years: timedelta64[Y] labels (kept as Python ints by IndexGO) grow by a timedelta64[M] label.'''
+    if a.dtype == np.dtype('m8[Y]') and any(isinstance(x, np.timedelta64) and np.datetime_data(x.dtype)[0] == 'M' for x in xs):
+        return {'finding': 'C07-indexgo-timedelta-years'}
+    return {}
+
+
 def op_idxgo_append(a, fv):
     sf = _sf()
     g = sf.IndexGO(a[:2])
     g.append(fv)
-    return [Col(p_fill(a.dtype, fv, True), from_arr(a, [0, 1]) + from_elem(fv), g.values)]
+    return [Col(p_fill(a.dtype, fv, True), from_arr(a, [0, 1]) + from_elem(fv), g.values)], _indexgo_years_tag(a, [fv])
 
 
 SERIES_ELEM_OPS = [op_s_reindex, op_s_shift, op_s_shift_neg, op_s_assign_iloc, op_s_assign_loc_list, op_s_fillna, op_s_fillna_trailing,
@@ -642,18 +649,21 @@ def elem_case(ctx, kind, op, hd, fv):
     if isinstance(fv, tuple) and op.__name__ not in TUPLE_OK:
         return None
     desc = {'host_dtype': hd, 'host': rp(HOSTS[hd]), 'element': rp(fv), 'element_type': type(fv).__name__}
+    tags = {}
     try:
         cols = op(a, fv)
+        if isinstance(cols, tuple):
+            cols, tags = cols
     except Exception as e:  # noqa
         cols = e
     ed = elem_np_dtype(fv)
-    return mk_case(ctx, kind, op.__name__[3:], desc, cols, [A(a), E(fv)],
+    return mk_case(ctx, kind, op.__name__[3:], desc, cols, [A(a), E(fv)], tags=tags,
                    nontrivial=(np.dtype(ed) != a.dtype))
 
 
 def series_elem_cases(ctx):
     pairs = [(hd, fv) for hd in HOSTS for fv in FILLS]
-    core_pairs = [(hd, fv) for hd in HOSTS_CORE for fv in FILLS]
+    core_pairs = [(hd, fv) for hd in HOSTS_FRAME for fv in FILLS]
     for k, op in enumerate(SERIES_ELEM_OPS):
         if ctx.tier == 'thorough':
             sel = pairs if k == 0 else core_pairs
@@ -751,7 +761,7 @@ def op_idxgo_extend(a, b):
     # extend appends one label at a time: resolve_dtype(dtype_from_element(label), running dtype)
     xs = cells_of(b[:2])
     cols = [Col(f'(PSteps {dt(a.dtype)} {lit.lst([elem(x) for x in xs])})', from_arr(a, [0, 1]) + [f'(FromElem {elem(x)})' for x in xs], g.values)]
-    return cols, {}, [A(a[:2])] + [E(x) for x in xs]
+    return cols, _indexgo_years_tag(a, xs), [A(a[:2])] + [E(x) for x in xs]
 
 
 SERIES_ARR_OPS = [op_s_concat, op_s_concat3, op_s_insert_after, op_s_insert_before, op_s_assign_arr, op_s_assign_series,
@@ -779,7 +789,7 @@ def arr_case(ctx, kind, op, hd, od, **kw):
 
 def series_arr_cases(ctx):
     pairs = [(hd, od) for hd in HOSTS for od in HOSTS]
-    core_pairs = [(hd, od) for hd in HOSTS_CORE for od in HOSTS_CORE]
+    core_pairs = [(hd, od) for hd in HOSTS_FRAME for od in HOSTS_FRAME]
     for k, op in enumerate(SERIES_ARR_OPS):
         sel = (pairs if k == 0 else core_pairs) if ctx.tier == 'thorough' else ctx.rng.sample(pairs, min(len(pairs), ctx.n(350 if k == 0 else 35, 0)))
         for hd, od in sel:
@@ -1376,7 +1386,8 @@ def witness_cases(ctx):
           iter_case(ctx, iop_series, (b'a', 1)),
           iter_case(ctx, iop_series, (2**53 + 1, np.float64(1.5))),
           iter_case(ctx, iop_series, (np.timedelta64(1, 'Y'), 0)),
-          arr_case(ctx, 'corpus:witness', op_s_overlay_union, 'm8[ns]/full', 'm8[ns]/full')]
+          arr_case(ctx, 'corpus:witness', op_s_overlay_union, 'm8[ns]/full', 'm8[ns]/full'),
+          arr_case(ctx, 'corpus:witness', op_idxgo_extend, 'm8[Y]', 'm8[M]')]
     for c in cs:
         c.kind = 'corpus:witness'
         yield c
